@@ -251,7 +251,7 @@ func (d *Device) handleABSEvent(ie *input.InputEvent) {
 		switch {
 		case value <= -0.5:
 			_, ok := d.analogNoteTracker[identifierNeg]
-			if !ok {
+			if !ok && analog.Bidirectional {
 				d.AnalogNoteOn(identifierNeg, analog.NoteNeg, analog.ChannelOffsetNeg, ie)
 			}
 			d.AnalogNoteOff(identifier, ie)
